@@ -14,8 +14,8 @@
    Decoder side   /repo/codegen/cte/CTELexer.g4 (array header tokens -- the token
                   names are regenerated from the generated lexer --, the element
                   token shapes of the array modes), /repo/cte/parser.go
-                  parseUintElement, parseIntElement, parseFloatElement,
-                  normalizeFloatString, ExitArrayElemNan/Snan/Inf/Ninf,
+                  parseUintElement, parseIntElement (with stripDecimalLeadingZeros),
+                  parseFloatElement, normalizeFloatString, ExitArrayElemNan/Snan/Inf/Ninf,
                   strconv.ParseUint / ParseInt (base 0 prefixes, underscores,
                   range checks) and strconv.ParseFloat on hexadecimal input
                   (correct rounding, closed form).
@@ -597,10 +597,50 @@ Definition int_token_ok (signed : bool) (m : amode) (s : bytes) : bool :=
       end
   end.
 
+(* parser.go stripDecimalLeadingZeros: after an optional sign, a zero is dropped
+   together with the separators that follow it while a decimal digit comes next
+   ("010" -> "10", "0_10" -> "10", "00_8" -> "8", "00" -> "0"; "0x1f", "0" and
+   "0_" unchanged), so that strconv's base-0 mode does not read a decimal
+   element as legacy octal *)
+Fixpoint drop_us (s : bytes) : bytes :=
+  match s with
+  | c :: r => if c =? ch_us then drop_us r else s
+  | [] => []
+  end.
+
+Fixpoint strip_zeros_aux (fuel : nat) (s : bytes) : bytes :=
+  match fuel with
+  | O => s
+  | S f =>
+      match s with
+      | c0 :: r =>
+          if c0 =? ch_0 then
+            match drop_us r with
+            | c1 :: r1 => if is_dec c1 then strip_zeros_aux f (c1 :: r1) else s
+            | [] => s
+            end
+          else s
+      | [] => s
+      end
+  end.
+
+Definition strip_zeros (s : bytes) : bytes := strip_zeros_aux (length s) s.
+
+Definition strip_dec_leading_zeros (s : bytes) : bytes :=
+  match s with
+  | c :: r => if (c =? ch_minus) || (c =? ch_plus) then c :: strip_zeros r else strip_zeros s
+  | [] => []
+  end.
+
+(* parseUintElement / parseIntElement: only arrays without a base letter in the
+   header (base 0) strip leading zeros *)
+Definition elem_text (m : amode) (s : bytes) : bytes :=
+  match m with MDec => strip_dec_leading_zeros s | _ => s end.
+
 Definition read_int_elem (k : kind) (m : amode) (s : bytes) : option N :=
   match kind_class k with
-  | CUint => if int_token_ok false m s then parse_uint_go s (mode_base m) (kind_bits k) else None
-  | CInt => if int_token_ok true m s then parse_int_go s (mode_base m) (kind_bits k) else None
+  | CUint => if int_token_ok false m s then parse_uint_go (elem_text m s) (mode_base m) (kind_bits k) else None
+  | CInt => if int_token_ok true m s then parse_int_go (elem_text m s) (mode_base m) (kind_bits k) else None
   | CFloat => None
   end.
 
